@@ -160,7 +160,7 @@ def sweep(ctx, budget):
 def run(ctx: Ctx) -> int:
     src_ok = ec.translate_engine_sources(ctx)
     ec.build_and_check_props(ctx, ["theories/Props/C01.v", "theories/Props/C01_store.v"] +
-                             (["theories/Props/C01_engine_src.v"] if src_ok else []))
+                             (["theories/Props/C01_engine_src.v", "theories/Props/C01_store_src.v"] if src_ok else []))
     n_plans = 24 if ctx.thorough else 8
     budget = ec.Budget(900 if ctx.thorough else 120)
     shards, findings, infos, samples = {}, [], {}, []
